@@ -15,6 +15,7 @@ import (
 	"bytes"
 	"errors"
 	"fmt"
+	"io"
 	"math/big"
 
 	"github.com/consensys/gnark-crypto/ecc"
@@ -421,6 +422,32 @@ func IsInfinity(group int, p []byte) bool {
 	return a.IsInfinity()
 }
 
+// Reencode: see api.Ops.
+func Reencode(kind string, b []byte, pieces []int) ([]byte, int64, error) {
+	r := &api.PieceReader{Data: b, Pieces: pieces}
+	var obj interface {
+		io.ReaderFrom
+		io.WriterTo
+	}
+	switch kind {
+	case "p1":
+		obj = new(mpcsetup.Phase1)
+	case "p2":
+		obj = new(mpcsetup.Phase2)
+	default:
+		obj = new(mpcsetup.SrsCommons)
+	}
+	n, err := obj.ReadFrom(r)
+	if err != nil {
+		return nil, n, err
+	}
+	var out bytes.Buffer
+	if _, err := obj.WriteTo(&out); err != nil {
+		return nil, n, err
+	}
+	return out.Bytes(), n, nil
+}
+
 // Ops is this curve's entry for the C18 test.
 var Ops = &api.Ops{
 	Name: Name, ID: ID, G1Size: G1Size, G2Size: G2Size,
@@ -440,5 +467,6 @@ var Ops = &api.Ops{
 		}
 		return s.Step, nil
 	},
+	Reencode:  Reencode,
 	Generator: Generator, Scale: Scale, IsInfinity: IsInfinity, AddTorsion: AddTorsion,
 }
